@@ -175,6 +175,10 @@ class NestedQueryPostprocessingTransformation(QueryPostprocessingTransformation)
 
     def apply(self, rule: SigmaRule | SigmaCorrelationRule, query: Any) -> Any:
         super().apply(rule, query)
+        # The nested pipeline is never applied to a rule, which is what resets the tracking of
+        # applied items. Reset it here, otherwise identifiers of items that were applied to earlier
+        # rules leak into the tracking information of the current rule.
+        self._nested_pipeline.applied_ids = set()
         query = self._nested_pipeline.postprocess_query(rule, query)
         if self._pipeline is not None:
             self._pipeline.applied_ids.update(self._nested_pipeline.applied_ids)
